@@ -878,7 +878,14 @@ def r8e_text_fallback_on_every_miss(ctx):
     for f in crate.real_fns():
         if f.kind not in ("fn", "method") or CC not in f.ret or "Option" not in f.ret:
             continue
-        parse = [bb for bb, c in f.calls() if re.search(r"::get_parsed_ast$|rustpython_parser::parse", c.get("res") or "")]
+        # the AST lookup by role: the external parser, or a local function that returns the parsed module
+        def _gives_ast(c):
+            res = c.get("res") or ""
+            if res.startswith("rustpython_parser::parse") or res == "rustpython_parser::parser::parse":
+                return True
+            g = crate.fns.get(res) if c.get("res_local") else None
+            return g is not None and "rustpython_ast::Mod" in g.ret
+        parse = [bb for bb, c in f.calls() if _gives_ast(c)]
         if not parse:
             continue
         fb = []
